@@ -5,13 +5,140 @@ from __future__ import annotations
 import ast
 from dataclasses import dataclass
 
+from typing import TYPE_CHECKING
+
 from ..cfg import CFG, Node, has_await
 from ..model import AnalysisError, FuncInfo, norm
 from ..prov import Canon, message_param
-from .common import Ctx
+
+if TYPE_CHECKING:
+    from .common import Ctx
 
 BUFFERS = ("set_messages", "internal_messages")
 REMOVERS = ("pop", "popitem", "clear")
+
+
+class AttrSet(str):
+    """An alias that may denote several buffers (`for buffer in (mb.set_messages, mb.internal_messages)`): equal to each."""
+
+    members: tuple = ()
+
+    def __new__(cls, members):
+        o = super().__new__(cls, "|".join(sorted(members)))
+        o.members = tuple(sorted(members))
+        return o
+
+    def __eq__(self, other):
+        return other in self.members or str.__eq__(self, other)
+
+    def __ne__(self, other):
+        return not self.__eq__(other)
+
+    __hash__ = str.__hash__
+
+
+class HelperKey(ast.Name):
+    """Key placeholder of a removal/store performed inside a helper function called at the site."""
+
+
+_ALIAS: dict[int, str] = {}  # id(ast.Name load node) -> buffer attribute (or AttrSet)
+_HELPERS: dict[str, dict] = {}  # helper fq -> {"removes": {attr}, "stores": {attr}, "reads": {attr}}
+_PREPARED: list = []
+_HKEYS: dict = {}
+
+
+def _direct_attr(e: ast.expr) -> str | None:
+    if isinstance(e, ast.Attribute) and e.attr in BUFFERS:
+        return e.attr
+    return None
+
+
+def prepare(ctx) -> None:
+    """Index local aliases of the buffers and helper functions that touch them (once per Ctx)."""
+    if _PREPARED and _PREPARED[0] is ctx:
+        return
+    _PREPARED[:] = [ctx]
+    _ALIAS.clear()
+    _HELPERS.clear()
+    _HKEYS.clear()
+    for f in ctx.prog.all_functions():
+        binds: dict[str, list] = {}
+        for n in ctx.own_nodes(f):
+            if isinstance(n, (ast.Assign, ast.AnnAssign)):
+                targets = n.targets if isinstance(n, ast.Assign) else [n.target]
+                for t in targets:
+                    if isinstance(t, ast.Name):
+                        binds.setdefault(t.id, []).append(("assign", n.value))
+            elif isinstance(n, (ast.For, ast.AsyncFor, ast.comprehension)):
+                for t in ast.walk(n.target):
+                    if isinstance(t, ast.Name):
+                        binds.setdefault(t.id, []).append(("iter", n.iter) if t is n.target else ("other", None))
+            elif isinstance(n, ast.NamedExpr) and isinstance(n.target, ast.Name):
+                binds.setdefault(n.target.id, []).append(("assign", n.value))
+            elif isinstance(n, (ast.With, ast.AsyncWith)):
+                for it in n.items:
+                    if it.optional_vars is not None:
+                        for t in ast.walk(it.optional_vars):
+                            if isinstance(t, ast.Name):
+                                binds.setdefault(t.id, []).append(("other", None))
+        params = {a.arg for a in f.node.args.args + f.node.args.kwonlyargs + f.node.args.posonlyargs}
+        alias: dict[str, str] = {}
+        for name, bs in binds.items():
+            if name in params:
+                continue
+            attrs: set[str] = set()
+            ok = True
+            for kind, v in bs:
+                if kind == "assign" and v is not None and _direct_attr(v):
+                    attrs.add(_direct_attr(v))
+                elif kind == "iter" and isinstance(v, (ast.Tuple, ast.List)) and v.elts and all(_direct_attr(x) for x in v.elts):
+                    attrs |= {_direct_attr(x) for x in v.elts}
+                else:
+                    ok = False
+            if ok and attrs:
+                alias[name] = next(iter(attrs)) if len(attrs) == 1 else AttrSet(attrs)
+        if alias:
+            for n in ctx.own_nodes(f):
+                if isinstance(n, ast.Name) and isinstance(n.ctx, ast.Load) and n.id in alias:
+                    _ALIAS[id(n)] = alias[n.id]
+    # helper functions: methods/functions that touch a buffer directly
+    for f in ctx.prog.all_functions():
+        rec = {"removes": set(), "stores": set(), "reads": set()}
+        for attr in BUFFERS:
+            if _removal_sites_direct(ctx, f, attr):
+                rec["removes"].add(attr)
+            if _store_sites_direct(ctx, f, attr):
+                rec["stores"].add(attr)
+            if _reads_direct(ctx, f, attr):
+                rec["reads"].add(attr)
+        # a function that sends is a flush / handler in its own right, judged by itself - not a helper
+        if (rec["removes"] or rec["stores"] or rec["reads"]) and not any(is_send(n) for n in ctx.own_nodes(f) if isinstance(n, ast.stmt)):
+            _HELPERS[f.fq] = rec
+
+
+def helper_calls(ctx, f: FuncInfo, what: str, attr: str) -> list[tuple[ast.Call, str]]:
+    """Calls in f to another repository function that directly removes from / stores into / reads <attr>."""
+    from .common import callee_names
+
+    prepare(ctx)
+    out = []
+    for n in ctx.own_nodes(f):
+        if not isinstance(n, ast.Call):
+            continue
+        fn = n.func
+        # cheap pre-filter: gateway.send / transport.write and builtins are never buffer helpers
+        if isinstance(fn, ast.Attribute) and fn.attr in ("send", "write", "get", "pop", "items", "values", "keys"):
+            continue
+        try:
+            names = callee_names(ctx, f, n)
+        except AnalysisError:
+            continue
+        for nm in sorted(names):
+            rec = _HELPERS.get(nm)
+            if rec and nm != f.fq and attr in rec[what]:
+                out.append((n, nm))
+                break
+    return out
 
 
 @dataclass
@@ -28,9 +155,11 @@ class Flush:
 
 
 def buffer_attr(e: ast.expr) -> str | None:
-    """`<x>.set_messages` -> 'set_messages'."""
+    """`<x>.set_messages` -> 'set_messages'; a local alias of a buffer (see prepare) -> its buffer(s)."""
     if isinstance(e, ast.Attribute) and e.attr in BUFFERS:
         return e.attr
+    if isinstance(e, ast.Name):
+        return _ALIAS.get(id(e))
     return None
 
 
@@ -54,7 +183,18 @@ def send_buffered_flag(call: ast.Call):
 
 
 def removal_sites(ctx: Ctx, f: FuncInfo, attr: str) -> list[tuple[ast.AST, ast.expr | None]]:
-    """(statement-level node, key expr) of removals from <x>.<attr> in f."""
+    """(node, key expr) of removals from <x>.<attr> in f, including calls of helpers that remove (key: HelperKey)."""
+    prepare(ctx)
+    out = _removal_sites_direct(ctx, f, attr)
+    for call, nm in helper_calls(ctx, f, "removes", attr):
+        hk = _HKEYS.get((id(call), attr))
+        if hk is None:
+            hk = _HKEYS[(id(call), attr)] = HelperKey(id=f"<inside {nm.rsplit('.', 2)[-2]}.{nm.rsplit('.', 1)[-1]}>", ctx=ast.Load())
+        out.append((call, hk))
+    return out
+
+
+def _removal_sites_direct(ctx, f: FuncInfo, attr: str) -> list[tuple[ast.AST, ast.expr | None]]:
     out = []
     for n in ctx.own_nodes(f):
         if isinstance(n, ast.Call) and isinstance(n.func, ast.Attribute) and n.func.attr in REMOVERS and buffer_attr(n.func.value) == attr:
@@ -72,6 +212,11 @@ def removal_sites(ctx: Ctx, f: FuncInfo, attr: str) -> list[tuple[ast.AST, ast.e
 
 
 def store_sites(ctx: Ctx, f: FuncInfo, attr: str) -> list[tuple[ast.Assign, ast.expr, ast.expr]]:
+    prepare(ctx)
+    return _store_sites_direct(ctx, f, attr)
+
+
+def _store_sites_direct(ctx, f: FuncInfo, attr: str) -> list[tuple[ast.Assign, ast.expr, ast.expr]]:
     out = []
     for n in ctx.own_nodes(f):
         if isinstance(n, ast.Assign):
@@ -83,19 +228,25 @@ def store_sites(ctx: Ctx, f: FuncInfo, attr: str) -> list[tuple[ast.Assign, ast.
     return out
 
 
+def _reads_direct(ctx, f: FuncInfo, attr: str) -> bool:
+    for n in ctx.own_nodes(f):
+        if isinstance(n, ast.Call) and isinstance(n.func, ast.Attribute) and n.func.attr in ("items", "values", "keys", "copy") and buffer_attr(n.func.value) == attr:
+            return True
+        if isinstance(n, (ast.For, ast.comprehension)) and buffer_attr(n.iter) == attr:
+            return True
+        if isinstance(n, ast.Call) and isinstance(n.func, ast.Name) and n.func.id in ("list", "dict", "tuple", "sorted") and n.args and buffer_attr(n.args[0]) == attr:
+            return True
+    return False
+
+
 def flush_functions(ctx: Ctx, attr: str = "set_messages") -> list[FuncInfo]:
-    """Functions that iterate entries of the buffer and send them."""
+    """Functions that iterate entries of the buffer (directly or through a helper that hands them out) and send them."""
+    prepare(ctx)
     out = []
     for f in ctx.prog.all_functions():
-        reads = False
-        for n in ctx.own_nodes(f):
-            if isinstance(n, ast.Call) and isinstance(n.func, ast.Attribute) and n.func.attr in ("items", "values", "keys", "copy") and buffer_attr(n.func.value) == attr:
-                reads = True
-            if isinstance(n, (ast.For, ast.comprehension)) and buffer_attr(n.iter) == attr:
-                reads = True
-            if isinstance(n, ast.Call) and isinstance(n.func, ast.Name) and n.func.id in ("list", "dict", "tuple", "sorted") and n.args and buffer_attr(n.args[0]) == attr:
-                reads = True
-        if reads and any(is_send(n) for n in ctx.own_nodes(f) if isinstance(n, ast.stmt)):
+        if not any(is_send(n) for n in ctx.own_nodes(f) if isinstance(n, ast.stmt)):
+            continue
+        if _reads_direct(ctx, f, attr) or helper_calls(ctx, f, "reads", attr):
             out.append(f)
     return out
 
@@ -103,6 +254,8 @@ def flush_functions(ctx: Ctx, attr: str = "set_messages") -> list[FuncInfo]:
 def analyse_flush(ctx: Ctx, f: FuncInfo, attr: str = "set_messages") -> Flush:
     g = CFG(f.node)
     loops = [n for n in ctx.own_nodes(f) if isinstance(n, (ast.For, ast.AsyncFor)) and is_send(n)]
+    # the sending loop is the innermost one (an outer loop may range over several buffers)
+    loops = [lp for lp in loops if not any(o is not lp and _inside(lp, o) for o in loops)]
     if len(loops) != 1:
         raise AnalysisError(f"flush shape not recognised in {f.fq}: {len(loops)} sending loop(s)")
     lp = loops[0]
@@ -132,7 +285,7 @@ def analyse_flush(ctx: Ctx, f: FuncInfo, attr: str = "set_messages") -> Flush:
     live = buffer_attr(cont) == attr
     sends = g.nodes_where(lambda n: isinstance(n.ast, ast.stmt) and n.kind == "stmt" and is_send(n.ast) is not None and _inside(lp, n.ast))
     rem_stmts = {id(_stmt(ctx, f, n)) for n, _k in removal_sites(ctx, f, attr)}
-    removes = g.nodes_where(lambda n: n.kind == "stmt" and id(n.ast) in rem_stmts)
+    removes = g.nodes_where(lambda n: (n.kind == "stmt" or (n.kind == "iter" and isinstance(n.ast, (ast.For, ast.AsyncFor)))) and id(n.ast) in rem_stmts)
     return Flush(f, g, lp, key_name, val_name, cont, live, sends, removes)
 
 
@@ -160,8 +313,16 @@ def snapshot_source(ctx: Ctx, fl: Flush, attr: str = "set_messages"):
     return None
 
 
-def reads_buffer(e: ast.AST, attr: str) -> bool:
-    return any(isinstance(x, ast.Attribute) and x.attr == attr for x in ast.walk(e))
+def reads_buffer(e: ast.AST, attr: str, ctx=None, f: FuncInfo | None = None) -> bool:
+    """e mentions the buffer: directly, through a local alias, or (ctx/f given) by calling a helper that reads or removes from it."""
+    if any(isinstance(x, ast.expr) and buffer_attr(x) == attr for x in ast.walk(e)):
+        return True
+    if ctx is not None and f is not None:
+        inner = {id(x) for x in ast.walk(e)}
+        for what in ("reads", "removes"):
+            if any(id(c) in inner for c, _nm in helper_calls(ctx, f, what, attr)):
+                return True
+    return False
 
 
 def none_propagation(ctx: Ctx, chk, rule: str) -> None:
@@ -215,13 +376,13 @@ def entry_names(ctx: Ctx, f: FuncInfo, attr: str) -> dict[str, ast.expr]:
     for n in ctx.own_nodes(f):
         if isinstance(n, ast.Assign) and len(n.targets) == 1 and isinstance(n.targets[0], ast.Name):
             v = n.value
-            if isinstance(v, ast.Call) and isinstance(v.func, ast.Attribute) and v.func.attr in ("get", "pop") and buffer_attr(v.func.value) == attr and v.args:
+            if isinstance(v, ast.Call) and isinstance(v.func, ast.Attribute) and v.func.attr in ("get", "pop", "setdefault") and buffer_attr(v.func.value) == attr and v.args:
                 out[n.targets[0].id] = v.args[0]
             elif isinstance(v, ast.Subscript) and buffer_attr(v.value) == attr:
                 out[n.targets[0].id] = v.slice
         elif isinstance(n, ast.NamedExpr) and isinstance(n.target, ast.Name):
             v = n.value
-            if isinstance(v, ast.Call) and isinstance(v.func, ast.Attribute) and v.func.attr in ("get",) and buffer_attr(v.func.value) == attr and v.args:
+            if isinstance(v, ast.Call) and isinstance(v.func, ast.Attribute) and v.func.attr in ("get", "setdefault") and buffer_attr(v.func.value) == attr and v.args:
                 out[n.target.id] = v.args[0]
         elif isinstance(n, (ast.For, ast.comprehension)):
             it = n.iter
